@@ -98,8 +98,20 @@ def check_case(ip, c):
                     bad.append(("%s:stack-vs-frame%s" % (name, tag),
                                 dict(frame=i, stack=vs[:, i].tolist(), single=f(fr).tolist())))
                     break
+        # the optional absolute floor min_threshold: stack and frames must still agree, and a shift must still shift
+        extra = (int(img.sum()) + 7 * len(c["lit"])) % 3 == 0          # the additional replays below on a deterministic third of the cases
+        if not bad and extra and k != "bp" and c["th"][0] != 0:
+            fm = lambda a: np.asarray(ip.centre_of_gravity(a.copy(), threshold=th, min_threshold=1.0), float)
+            vm = fm(img)
+            sm = fm(np.array([img, 2.0 * partner, img]))
+            if sm.shape != (2, 3) or not _same(sm[:, 0], vm) or not _same(sm[:, 1], fm(2.0 * partner)):
+                bad.append(("centre_of_gravity:stack-vs-frame:min_threshold", dict(stack=sm.tolist(), single=vm.tolist())))
+            for s_ in _pick(c["shifts"]):
+                if s_ != [0, 0] and not _same(fm(_translate(img, s_[0], s_[1])), vm + np.array([s_[1], s_[0]])):
+                    bad.append(("centre_of_gravity:shift:min_threshold", dict(shift=s_)))
+                    break
         # integer-typed images (detector counts): the same answers as the same image in floating point
-        if not bad:
+        if not bad and extra:
             ii = np.array(c["img"], dtype=np.int64)
             for fac in (1, 3):
                 vi = f(fac * ii)
@@ -119,7 +131,10 @@ def check_case(ip, c):
         v2 = np.asarray(ip.correlation_centroid(img.copy(), ref.copy(), threshold=th, padding=pad), float)
         if v3.shape != (2, 1) or v2.shape != (2, 1):
             return [("correlation_centroid:shape", dict(s3=list(v3.shape), s2=list(v2.shape)))], []
-        cls = ":odd-n-even-pad" if (n % 2 == 1 and pad % 2 == 0) else ""
+        nx_ = c.get("nx", n)
+        cls = ":odd-n-even-pad" if ((n % 2 == 1 or nx_ % 2 == 1) and pad % 2 == 0) else ""
+        if nx_ != n:
+            cls += ":rectangular"
         if c["fits"] and not c["neartie"]:
             if not _same(v3, c["expected"], 1e-8):
                 bad.append(("correlation_centroid:displacement" + cls,
